@@ -183,7 +183,12 @@ func genC11(tier, out string, sum *Summary) {
 				want[j] = string(r)
 			}
 			expect("split", "split(s, '')", doc, want)
-			k := int64(rng.Intn(6))
+			// counts around the number of code points and around the number of bytes
+			nb := int64(len(s))
+			k := pick([]int64{0, 1, 2, l - 2, l - 1, l, l + 1, nb - 1, nb, nb + 1, 2 * nb, 1 << 40})
+			if k < 0 {
+				k = int64(rng.Intn(6))
+			}
 			var wk []any
 			if k == 0 {
 				wk = []any{s}
